@@ -16,7 +16,7 @@ func init() {
 	serve("C13", "S1", "S5", "S7")
 	serve("C14", "L4", "L1", "L5", "L8", "G6", "G6r", "V1", "V7", "V8")
 	serve("C15", "L1", "L8", "L9", "G3", "G13", "L7")
-	serve("C16", "G1", "G1b", "G9", "G10", "R4")
+	serve("C16", "G1", "G1b", "G9", "G10", "G10b", "R4")
 	serve("C17", "P1", "L2", "L3", "G11", "G20")
 	serve("C18", "L1", "L2", "L6", "P2", "R4", "G10", "G14", "G17", "L8")
 	serve("C19", "P3", "P6", "L1", "L6", "L8")
@@ -26,6 +26,6 @@ func init() {
 
 func init() {
 	// pseudo-property used only to validate the corpus in one run
-	serve("ALL", "T1", "T2", "T3", "T4", "T5", "T6", "T8", "T9", "B1", "B1n", "B2", "B3", "B3b", "B4", "B6", "B6m", "F1", "F2", "G1", "G2", "G3", "G4", "G5", "G6", "G6r", "G7", "G8", "G9", "G10", "G11", "G12", "G13", "G14", "G1b", "P7", "V5", "T10", "W3", "V6",
+	serve("ALL", "T1", "T2", "T3", "T4", "T5", "T6", "T8", "T9", "B1", "B1n", "B2", "B3", "B3b", "B4", "B6", "B6m", "F1", "F2", "G1", "G2", "G3", "G4", "G5", "G6", "G6r", "G7", "G8", "G9", "G10", "G11", "G12", "G13", "G14", "G1b", "G10b", "P7", "V5", "T10", "W3", "V6",
 		"L1", "L2", "L3", "L4", "L5", "L6", "L7", "P1", "P2", "P3", "P3c", "P3w", "P4", "P5", "P6", "R1", "R2", "R3", "R4", "S1", "S2", "S3", "S4", "S5", "S6", "V1", "V2", "V3", "V4", "W1", "W2")
 }
